@@ -66,6 +66,13 @@ namespace
       if(n.size() > 220) n = n.substr(0, 220) + "...";
       return n;
     }
+    if(pc && dladdr(pc, &di) && di.dli_fname)
+    {
+      // a function without a dynamic symbol (internal linkage): module offset, resolvable with addr2line -e <binary>
+      const char* b = strrchr(di.dli_fname, '/');
+      char buf[64]; snprintf(buf, sizeof(buf), "+0x%lx", (unsigned long)((const char*)pc - (const char*)di.dli_fbase));
+      return std::string(b ? b + 1 : di.dli_fname) + buf;
+    }
     return "?";
   }
 
